@@ -130,6 +130,13 @@ SEEDS = {
     "C19f-record-relative-to-syncphase": ("C19", "sinusoidal RF with V0 > 0 and noise or modulation on: the queue (and so the record) holds the phase relative to the synchronous phase, the applied kick adds it back - record = applied phase minus asin(V0/V_RF)", []),
     "C17f-tracks-interpolated-past-axis-end": ("C17", "--tracking with an HDF5 output and a tracked particle exactly on the upper grid edge at a written step (file line beyond the grid, or a particle clamped there by a kick): appendTracks interpolates between axis values and reads Ruler::at(n)", ["C15"]),
     "C20f-unused-legacy-entry-not-erased": ("C20", "a config file using the legacy name RFVoltage or steps AND the current name on the command line with another value: the unused legacy entry stays in the map, notify() writes it after the current one", ["C13"]),
+    "C01g-fp-diffusion-diagonal-capped": ("C01", "a coarse time step on a fine energy grid (2*e1/cell^2 > 1, e.g. -s 256 -N 8) with a diffusion term: the diagonal diffusion weight is capped at 1 while the neighbour weights are not, every column sums to 1 + 2r - min(2r,1)", ["C04"]),
+    "C02g-zero-offset-row-skipped-on-update": ("C02", "the same KickMap object is given offsets twice and a row that had a non-zero displacement earlier gets exactly 0: updateSM skips rows with offset 0 ('identity entry in place already'), the row keeps its old stencil", ["C08", "C05"]),
+    "C03g-drift-slip-with-gamma-term": ("C03", "low beam energy and small momentum compaction through the executable (-E 1e8 --alpha0 3e-4): main() hands (alpha0 - 1/gamma^2)/alpha0 * angle to the drift while frequency, time step and kick use alpha0 alone", ["C05"]),
+    "C04g-three-point-damping-factor-two": ("C04", "--derivation 3 with a damping term: a constant refactor loses the 1/2 of the central difference, damping twice too strong, equilibrium 0.69 instead of 1", ["C01", "C05"]),
+    "C05g-three-point-diffusion-constant-mixup": ("C05", "--derivation 3: the diffusion stencil adds e1/(2 delta) instead of e1/delta^2 (identifier mix-up), energy spread settles at 0.39", ["C04", "C01"]),
+    "C06g-bucket-list-kept-by-reference": ("C06", "the caller modifies or destroys its bucket-number vector after constructing the field: the field keeps a reference instead of a copy", ["C18", "C07"]),
+    "C07g-wake-divided-by-integral": ("C07", "a phase space whose integral (as last computed by integrate()) differs from 1 (RenormalizeCharge -1, charge lost, un-normalised data): the wake is divided by the integral, the spectrum is not", ["C06", "C10", "C05"]),
     "C10-": ("C10", "", []),
     "C17-": ("C17", "", []),
 }
